@@ -21,6 +21,9 @@ Operation tokens (shared with the Lean driver):
 Inbound tokens: use | stop | p <sc> | r <sc> | s <sc> (SubChannel.pause/resume/stopProducing) | o <sc> / oh <sc>
   (subchannel_local_open + _set_protocol, plain / half-closeable protocol) | c <sc> (Manager.subchannel_closed directly)
   | rc <sc> (peer's CLOSE via Inbound.handle_close) | l <sc> (sc.loseConnection()) | lw <sc> (sc.loseWriteConnection())
+  | ro <sc> (peer's OPEN for "proto" via Inbound.handle_open: parked until the application listens) | rd <sc> <KiB>
+  (peer's DATA via Inbound.handle_data) | li <mode> (the application listens: Manager._register_subprotocol_factory;
+  its protocols never pause / pause in connectionMade / pause at the first dataReceived)
 """
 import itertools
 
@@ -535,6 +538,7 @@ class HalfProto(FullProto):
 # exceptions that are the caller's (application's / peer's) own fault, per operation
 IN_EXPECTED = {
     "o": {"AssertionError"}, "oh": {"AssertionError"}, "c": {"KeyError"}, "rc": {"NoTransition"},
+    "rd": {"NoTransition"}, "li": {"ValueError"},
     "l": {"NoTransition", "AlreadyClosedError", "NormalCloseUsedOnHalfCloseable"},
     "lw": {"NoTransition", "AlreadyClosedError", "HalfCloseUsedOnNonHalfCloseable"},
 }
@@ -576,6 +580,43 @@ def run_in(case):
     state = dict(any_closed=False, env_ok=True)
     lines, exp, viol, tags = [], [], [], set()
 
+    remote = set()       # subchannels created by the peer's OPEN (Inbound.handle_open)
+
+    def app_pause(n, t):
+        # an application protocol calls transport.pauseProducing() from inside connectionMade()/dataReceived()
+        if n in closed:
+            state["env_ok"] = False
+            tags.add("env:pause-after-close")
+        asked.add(n)
+        tags.add("pause-in-callback:" + automat_state(t))
+        t.pauseProducing()
+
+    class AppProto(FullProto):
+        """what the listening application's factory builds: mode 0 never pauses, 1 pauses its transport in
+        connectionMade(), 2 at its first dataReceived()"""
+        def __init__(self, mode):
+            FullProto.__init__(self)
+            self.mode = mode
+            self.fired = False
+
+        def makeConnection(self, t):
+            self.transport = t
+            protos[t._scid] = self
+            if self.mode == 1:
+                app_pause(t._scid, t)
+
+        def dataReceived(self, data):
+            if self.mode == 2 and not self.fired:
+                self.fired = True
+                app_pause(self.transport._scid, self.transport)
+
+    class AppFactory:
+        def __init__(self, mode):
+            self.mode = mode
+
+        def buildProtocol(self, addr):
+            return AppProto(self.mode)
+
     def now_closed(n):
         if n in is_open:
             state["any_closed"] = True
@@ -592,6 +633,13 @@ def run_in(case):
         n0 = len(log)
         exc = None
         was_open = n in is_open
+        if k in ("o", "oh", "ro") and not was_open and (n in ever or (k == "ro" and n in scs)):
+            # subchannel ids are never reused (and the peer's OPEN makes a new SubChannel object): compared up to here
+            tags.add("env:scid-reuse")
+            break
+        if k == "c" and n in remote:
+            tags.add("env:direct-close-of-remote-subchannel")
+            break
         try:
             if k == "use":
                 gen += 1
@@ -622,9 +670,6 @@ def run_in(case):
                 tags.add("stop-in:" + automat_state(sc_of(n)))
                 sc_of(n).stopProducing()
             elif k in ("o", "oh"):
-                if n in ever and not was_open:
-                    state["env_ok"] = False      # subchannel ids are never reused
-                    tags.add("env:scid-reuse")
                 m.subchannel_local_open(n, sc_of(n))
                 ever.add(n)
                 is_open.add(n)          # (Inbound has it from here on, whatever _set_protocol says)
@@ -634,6 +679,25 @@ def run_in(case):
                     sc_of(n)._set_protocol(protos[n])
                 else:
                     sc_of(n)._set_protocol(HalfProto() if k == "oh" else FullProto())   # AssertionError: already has one
+            elif k == "ro":
+                if was_open:
+                    i.handle_open(n, "proto")           # duplicate OPEN: logged and ignored
+                else:
+                    i.handle_open(n, "proto")
+                    scs[n] = i._open_subchannels[n]     # the SubChannel object Inbound created
+                    remote.add(n)
+                    ever.add(n)
+                    is_open.add(n)
+                    closed.discard(n)
+                    tags.add("remote-open:" + ("listening" if n in protos else "parked"))
+            elif k == "rd":
+                if was_open:
+                    tags.add("remote-data:" + automat_state(sc_of(n)))
+                i.handle_data(n, bytes(int(f[2]) * 1024))
+            elif k == "li":
+                parked_now = len(m._subprotocol_factories._pending_opens.get("proto", ()))
+                tags.add("listen:mode%s/%d-parked" % (f[1], min(parked_now, 3)))
+                m._register_subprotocol_factory("proto", AppFactory(int(f[1])))
             elif k == "c":
                 if was_open:
                     tags.add("close:%s/%d-open-paused/%s" % ("paused" if n in asked else "unpaused", min(len(asked & is_open), 3),
@@ -657,10 +721,11 @@ def run_in(case):
             else:
                 viol.append(("inbound-pause-not-forwarded" if "Producing" in str(e) else "inbound-internal-exception",
                              f"{tok}: {exc}: {e}"))
-        if k in ("rc", "l", "lw") and n in protos and protos[n].gone() and n in is_open:
-            # the application has been told that the subchannel is gone
-            tags.add("closed-by:%s/%s" % (k, "paused" if n in asked else "unpaused"))
-            now_closed(n)
+        for x in sorted(is_open):
+            if x in protos and protos[x].gone():
+                # the application has been told that the subchannel is gone
+                tags.add("closed-by:%s/%s" % (k, "paused" if x in asked else "unpaused"))
+                now_closed(x)
         for e in log[n0:]:
             g = int(e[2:])
             want = e[1] == "p"
@@ -695,7 +760,12 @@ def run_in(case):
                    + "paused=" + ",".join(str(x) for x in sorted(sc._scid for sc in i._paused_subchannels))
                    + " open=" + ",".join(str(x) for x in sorted(i._open_subchannels))
                    + " conn=" + (str(cur) if i._connection is not None else "-")
-                   + " sub=" + sub)
+                   + " sub=" + sub
+                   + " parked=" + ",".join(str(t._scid) for t, _a in m._subprotocol_factories._pending_opens.get("proto", ()))
+                   + " pend=" + ",".join("%d:%d%s" % (x, len(getattr(scs[x], "_pending_remote_data", ())),
+                                                      "c" if getattr(scs[x], "_pending_remote_close", False) else "")
+                                         for x in sorted(scs)
+                                         if getattr(scs[x], "_pending_remote_data", ()) or getattr(scs[x], "_pending_remote_close", False)))
         tags.add("iop:" + k)
     seen, v2 = set(), []
     for s, msg in viol:
@@ -1023,7 +1093,15 @@ IN_ALPHA_L = ["use", "stop", "p 1", "p 2", "r 1", "r 2", "s 1", "l 1", "rc 1", "
 IN_OPENH = ["oh 1", "o 2"]
 IN_ALPHA_H = ["use", "p 1", "r 1", "p 2", "r 2", "lw 1", "rc 1", "l 2", "rc 2"]
 
+IN_ALPHA_B = ["use", "stop", "ro 1", "ro 2", "rd 1 600", "rd 2 1", "li 0", "li 1", "li 2", "r 1", "rc 1"]
+
 IN_CORPUS = [
+    # the peer OPENs and streams a backlog (> 1 MiB) before the application listens; the listener's protocol is a slow
+    # consumer that pauses during the hand-over (at its first dataReceived / in connectionMade): paused then, and after
+    ["use", "ro 1", "rd 1 600", "rd 1 600", "rd 1 600", "li 2", "rd 1 1", "r 1", "rd 1 600", "stop", "use"],
+    ["use", "ro 1", "ro 2", "rd 1 600", "rd 1 600", "rd 2 600", "rc 2", "li 1", "r 1", "r 2", "ro 3", "rd 3 1"],
+    ["ro 1", "rd 1 600", "rd 1 600", "use", "li 0", "rd 1 600", "p 1", "stop", "use", "rc 1"],
+    ["use", "li 2", "ro 1", "rd 1 1", "rd 1 1", "r 1", "ro 1", "li 0", "rc 1", "rd 1 1"],
     # pause -> local loseConnection() (closing, still open until the peer's CLOSE) -> resume: the resume counts
     ["use", "o 1", "o 2", "p 1", "l 1", "r 1", "rc 1", "stop", "use"],
     ["o 1", "p 1", "l 1", "r 1", "use", "rc 1"],
@@ -1053,6 +1131,12 @@ IN_CORPUS = [
 def rand_in_case(rng):
     ops = []
     alpha = ["use", "stop"] + ["%s %d" % (k, n) for k in ("p", "r", "s", "o", "oh", "c", "rc", "l", "lw") for n in (1, 2, 3)]
+    if rng.random() < 0.4:
+        # the peer opens subchannels itself, possibly before the application listens
+        alpha = (["use", "stop", "li 0", "li 1", "li 2"] + ["ro %d" % n for n in (1, 2, 3)] * 2
+                 + ["rd %d %d" % (n, kb) for n in (1, 2, 3) for kb in (1, 600, 600)]
+                 + ["%s %d" % (k, n) for k in ("p", "r", "s", "rc", "l") for n in (1, 2, 3)])
+        return dict(kind="in", ops=["use"] * (rng.random() < 0.6) + [rng.choice(alpha) for _ in range(rng.randrange(2, 16))])
     if rng.random() < 0.7:
         ops += ["%s %d" % (rng.choice(["o", "o", "oh"]), n) for n in range(1, rng.randrange(2, 5))]
     for _ in range(rng.randrange(1, 14)):
@@ -1104,6 +1188,7 @@ def cases(rng, tier):
         out.extend(exhaustive_in(IN_ALPHA_OC, 6, first=("use", "o 1", "p 1")))
         out.extend(exhaustive_in(IN_ALPHA_L, 5, prefix=IN_OPEN2))
         out.extend(exhaustive_in(IN_ALPHA_H, 5, prefix=IN_OPENH))
+        out.extend(exhaustive_in(IN_ALPHA_B, 5, first=("use", "ro 1")))
     else:
         out.extend(exhaustive_out(ALPHA_BIG, 2, SETUP3))
         out.extend(exhaustive_out(ALPHA_SMALL, 3, SETUP3[:2]))
@@ -1112,6 +1197,7 @@ def cases(rng, tier):
         out.extend(exhaustive_in(IN_ALPHA_OC, 4))
         out.extend(exhaustive_in(IN_ALPHA_L, 4, prefix=IN_OPEN2))
         out.extend(exhaustive_in(IN_ALPHA_H, 4, prefix=IN_OPENH))
+        out.extend(exhaustive_in(IN_ALPHA_B, 4))
     return out
 
 
